@@ -343,7 +343,14 @@ func (h *harness) wait(op *opState) bool {
 }
 
 func (h *harness) submit(tx int, async bool) {
-	op := h.startOp("broadcast", tx, func(op *opState) {
+	op := h.submitOp(tx)
+	if !async {
+		h.wait(op)
+	}
+}
+
+func (h *harness) submitOp(tx int) *opState {
+	return h.startOp("broadcast", tx, func(op *opState) {
 		ptr := h.txs[tx].Copy()
 		h.mu.Lock()
 		h.opPtr[ptr] = op.id
@@ -352,20 +359,21 @@ func (h *harness) submit(tx int, async bool) {
 		err := h.b.Broadcast(ptr)
 		h.emitL(Event{Kind: "bcast_ret", Op: op.id, Tx: tx, Res: classifyErr(err)})
 	})
+}
+
+func (h *harness) confirm(tx int, async bool) {
+	op := h.confirmOp(tx)
 	if !async {
 		h.wait(op)
 	}
 }
 
-func (h *harness) confirm(tx int, async bool) {
-	op := h.startOp("markasconfirmed", tx, func(op *opState) {
+func (h *harness) confirmOp(tx int) *opState {
+	return h.startOp("markasconfirmed", tx, func(op *opState) {
 		h.emitL(Event{Kind: "conf_call", Op: op.id, Tx: tx})
 		h.b.MarkAsConfirmed(h.txs[tx].TxHash())
 		h.emitL(Event{Kind: "conf_ret", Op: op.id, Tx: tx})
 	})
-	if !async {
-		h.wait(op)
-	}
 }
 
 var barrierHash = chainhash.Hash(sha256.Sum256([]byte("c15 barrier: not a transaction")))
@@ -752,7 +760,8 @@ func (h *harness) tickWait(k int) {
 // its k-th callback; holdinit tx = the next initial broadcast of tx blocks in
 // the callback (the handler is then busy); waitheld; release; stop; join =
 // wait for asynchronous calls; tickwait k = wait for k+1 new tick-started
-// rounds. Async steps do not wait for the call to return.
+// rounds; busy = the busy-handler window (busy.go). Async steps do not wait for
+// the call to return.
 func Run(sp *Spec, opt Options) (res *Result) {
 	opt.fill()
 	res = &Result{Spec: sp, Fingerprint: sp.Fingerprint()}
@@ -838,6 +847,8 @@ func Run(sp *Spec, opt Options) (res *Result) {
 			h.join()
 		case "tickwait":
 			h.tickWait(s.K)
+		case "busy":
+			h.busy()
 		}
 	}
 
